@@ -16,6 +16,18 @@ LOOKUP = "automerge::op_set2::op_set::OpSet::lookup_actor"
 SAFE = "automerge::op_set2::op_set::OpSet::get_actor_safe"
 
 
+# Functions that turn an ExId's hint into an OpId without the guard, reviewed: they only ever see ExIds minted by
+# id_to_exid from the same document inside one make_patches pass. The reason holds only for these callers, so the
+# caller set is part of the rule (a new caller is reported).
+INTERNAL_HINT_USERS = {
+    "automerge::exid::ExId::to_internal_obj": {
+        "<automerge::exid::ExId as core::cmp::PartialEq<automerge::types::ObjId>>::eq",
+        "automerge::patches::patch_builder::PatchBuilder::get_path",
+        "automerge::patches::patch_log::ExposeQueue::flush_obj",
+    },
+}
+
+
 def hint_guard_edges(b):
     """true edges of `get_actor_safe(hint) == Some(actor)` tests"""
     def pred(src):
@@ -87,6 +99,47 @@ def run(ctx):
     ctx.rule("R2-hint", "provenance of OpId::new's actor-index argument + edge-dominance by the hint validation test")
     check_fn(ctx, EXID_TO_OPID, "ExId", 3)
     check_fn(ctx, CURSOR_TO_OPID, "OpCursor", 1)
+    # who-may-turn-the-hint-into-an-OpId: anywhere in the library, an OpId built from the hint field of an ExId needs the same guard
+    f = ctx.facts()
+    n_readers = 0
+    for p, r in sorted(f.fns.items()):
+        if r["ckey"] != ("automerge", "lib") or p in (EXID_TO_OPID,):
+            continue
+        reads = False
+        for blk in r["blocks"]:
+            for s in blk["st"]:
+                rv = s["rv"]
+                pls = [rv["p"]] if rv["k"] in ("Ref", "Discr") else [util.op_place(o) for o in rv.get("o", ()) if util.op_place(o)]
+                for pl in pls:
+                    pr = pl["p"]
+                    if "@Id" in pr and pr[pr.index("@Id") + 1:pr.index("@Id") + 2] == [".2"] and util.base_ty(r["locals"][pl["l"]]["ty"]) == "automerge::exid::ExId":
+                        reads = True
+        if not reads:
+            continue
+        n_readers += 1
+        rb = cfg.body(r)
+        sites = [(bi, t) for bi, t in rb.calls() if callee(t) == OPID_NEW]
+        if not sites:
+            continue
+        ctx.analysed_fns.add(p)
+        edges = hint_guard_edges(rb)
+        if norm_fn(p) in INTERNAL_HINT_USERS:
+            from .. import callgraph
+            cg = callgraph.get(f)
+            callers = {norm_fn(c).split("::{closure")[0] for c in cg.inn.get(p, ())}
+            extra = callers - INTERNAL_HINT_USERS[norm_fn(p)]
+            ctx.ob("R2-hint", "%s|internal-only hint user, callers" % norm_fn(p), not extra, r["sp"],
+                   "reviewed: only patch generation calls it, on ExIds minted from the same document in the same pass" if not extra else
+                   "unguarded hint->OpId conversion gained caller(s) %s; it is only sound for ExIds minted internally" % sorted(extra),
+                   via="table:ExIds reaching it are produced by id_to_exid of the same document during make_patches; callers frozen")
+            continue
+        for k, (bi, t) in util.ordinal_keys(sites, lambda it: "%s|OpId::new" % norm_fn(p)):
+            pv = rb.provenance(t["args"][1], through_calls=False)
+            from_hint = any("@Id" in pr and ".2" in pr for _, pr in pv.places)
+            if from_hint:
+                ok = bool(edges) and rb.edges_dominate(edges, bi)
+                ctx.ob("R2-hint", k, ok, t["sp"], "hint validated" if ok else "an OpId is built from an ExId's actor-index hint without checking get_actor_safe(hint)==Some(actor)")
+    ctx.note("functions reading the hint field of an ExId outside exid_to_opid: %d" % n_readers)
     # exid_to_obj goes through exid_to_opid
     b = ctx.body("automerge::automerge::Automerge::exid_to_obj")
     cs = [callee(t) for _, t in b.calls()]
